@@ -162,6 +162,9 @@ func ExecOpts(op M) (res any) {
 			res = fmt.Sprintf("panic: %v", r)
 		}
 	}()
+	if asStr(op["op"]) == "optsBackends" {
+		return execBackends(asStr(op["kind"]) == "writer")
+	}
 	if asStr(op["op"]) != "optsHist" || !optsWellFormed(op) {
 		return "unknown-op"
 	}
@@ -369,6 +372,13 @@ func optsWellFormed(op M) bool {
 			if !num(sm["i"]) {
 				return false
 			}
+			for _, key := range []string{"cell", "fo"} {
+				for _, kv := range asList(sm[key]) {
+					if p, ok := kv.([]any); !ok || len(p) != 2 {
+						return false
+					}
+				}
+			}
 		default:
 			return false
 		}
@@ -381,7 +391,7 @@ func optsGen(g *G, tier string) []M {
 	if tier == "thorough" {
 		n = 8000
 	}
-	var ops []M
+	ops := []M{{"op": "optsBackends", "kind": "writer"}, {"op": "optsBackends", "kind": "reader"}}
 	for i := 0; i < n; i++ {
 		isWriter := g.Chance(0.6)
 		steps := []any{}
@@ -515,6 +525,20 @@ func oracleOpts(op M, res any, exec func(M) any) []Finding {
 	if s, ok := res.(string); ok && strings.HasPrefix(s, "panic") {
 		return []Finding{{"C18", "configuration history panicked: " + s}}
 	}
+	if asStr(op["op"]) == "optsBackends" {
+		r, _ := res.(M)
+		for i, v := range asList(r["before"]) {
+			if asStr(v) != "" {
+				out = append(out, Finding{"C18", fmt.Sprintf("a %s constructed without options has storage backend directory %q, the documented default is the empty path (instance %d)", asStr(op["kind"]), asStr(v), i)})
+			}
+		}
+		for i, v := range asList(r["after"]) {
+			if i > 0 && asStr(v) != "" {
+				out = append(out, Finding{"C18", fmt.Sprintf("setting the storage directory of one %s changed it on another instance (instance %d now has %q)", asStr(op["kind"]), i, asStr(v))})
+			}
+		}
+		return out
+	}
 	steps := asList(op["steps"])
 	rl := asList(res)
 	// options of a single call hold for that call only: the configurations after a call are those before it
@@ -536,6 +560,20 @@ func oracleOpts(op M, res any, exec func(M) any) []Finding {
 		if e, ok := b["eff"].(M); ok && asStr(e["format"]) == string(formats.SPDX23JSON) {
 			if got, want := cellGet(e["cell"], "Indent", "?"), cellGet(sm["cell"], "Indent", "0"); got != want {
 				out = append(out, Finding{"C18", fmt.Sprintf("step %d: the call asked for indent %s, the output is indented by %s: the options of the call did not override the writer's", si, want, got)})
+			}
+		}
+	}
+	// ... and the format options of a call override the reader's: the driver receives the call's
+	for si := 0; si < len(steps) && si < len(rl); si++ {
+		sm, _ := steps[si].(M)
+		b, _ := rl[si].(M)
+		if sm == nil || b == nil || asStr(sm["s"]) != "call" || sm["cell"] == nil || asStr(op["kind"]) == "writer" || sm["auto"] != nil {
+			continue
+		}
+		want := cellGet(sm["cell"], recKey, "\x00")
+		if e, ok := b["eff"].(M); ok && asStr(e["format"]) == "verif/rec" && want != "\x00" {
+			if got := cellGet(e["cell"], recKey, "<none>"); got != want {
+				out = append(out, Finding{"C18", fmt.Sprintf("step %d: the call carried format options %q for the driver, the driver received %q: the options of the call did not override the reader's", si, want, got)})
 			}
 		}
 	}
@@ -585,6 +623,45 @@ func oracleOpts(op M, res any, exec func(M) any) []Finding {
 	return out
 }
 
+// execBackends: the default storage backend is part of an instance's configuration too. Three
+// instances built without a backend option; the first one's backend directory is set (the only way
+// to point the default backend somewhere); what the others hold is read back, and so is a fourth
+// instance built afterwards.
+func execBackends(isWriter bool) any {
+	pathOf := func(sr storage.StoreRetriever) any {
+		if fs, ok := sr.(*storage.FileSystem); ok && fs != nil {
+			return fs.Options.Path
+		}
+		return "<not the file-system backend>"
+	}
+	var backs []storage.StoreRetriever
+	mk := func() storage.StoreRetriever {
+		if isWriter {
+			return writer.New().Storage
+		}
+		return reader.New().Storage
+	}
+	for i := 0; i < 3; i++ {
+		backs = append(backs, mk())
+	}
+	before := []any{}
+	for _, b := range backs {
+		before = append(before, pathOf(b))
+	}
+	if fs, ok := backs[0].(*storage.FileSystem); ok && fs != nil {
+		fs.Options.Path = "dir-of-the-first"
+	}
+	backs = append(backs, mk())
+	after := []any{}
+	for _, b := range backs {
+		after = append(after, pathOf(b))
+	}
+	if fs, ok := backs[0].(*storage.FileSystem); ok && fs != nil {
+		fs.Options.Path = "" // leave no trace for the rest of the run
+	}
+	return M{"before": before, "after": after}
+}
+
 var OptsStream = &Stream{
 	Name:       "opts",
 	Gen:        optsGen,
@@ -594,4 +671,5 @@ var OptsStream = &Stream{
 	Nontrivial: func(op M) bool { return true },
 	OpProps:    func(op M) []string { return []string{"C18"} },
 	Reps:       1,
+	NoModel:    func(op M) bool { return asStr(op["op"]) == "optsBackends" },
 }
